@@ -73,6 +73,13 @@ def gen_ser(tier, R):
         res.append("(serscript _ " + " ".join(str(ord(c)) for c in txt) + ")")
     for src in ["1/0", "-1/0", "0/0", "1e", "sqrt(-1)", "[1/0, 2]", "max(1/0, 1)", "ln(0)", "pow(10, 400)", "1 + 2 * 3", "if_then(true, 1/0, 2)", "'a' + 'b'", "[1, 'x', [true]]", "str(0/0)", "0/0 = 0/0"]:
         res.append("(serscript _ " + " ".join(str(ord(c)) for c in src) + ")")
+    # programs in which a variable meets a constant under every operator, the constants an algebraic rewrite would treat specially (0, -0, 1, powers of two, their reciprocals): the tree the
+    # optimizer leaves behind must be the one the definition prescribes, and must reload - a rewrite that turns `x / 0` into `x * inf` puts a literal into the tree that JSON cannot carry
+    cs = ["0", "(-0)", "1", "(-1)", "2", "4", "0.5", "0.25", "1024", "(1 - 1)", "(2 * 0)", "3", "0.1", "1e308", "1e-320"]
+    for o_ in ["+", "-", "*", "/", "div", "mod", "=", "<>", "<", ">="]:
+        for c in cs:
+            for prog in (f"x {o_} {c}", f"{c} {o_} x", f"[x {o_} {c}, 1]", f"f(y) {o_} {c} {o_} {c}", f"if_then(x > 1, x {o_} {c}, 0)"):
+                res.append("(serscript _ " + " ".join(str(ord(ch)) for ch in prog) + ")")
     return res
 
 
